@@ -1465,6 +1465,13 @@ func issuerFirst(c *Ctx, rule string) {
 				first = root.Children[0].tagString()
 			}
 			c.check(first == "saml:Issuer", rule, fname, "Issuer is the first child on every path", c.P.InstrPos(t.Instr), "saml:Issuer first (the signature is inserted at index 1)", "first child built is "+first+": the signature inserted at index 1 does not follow an Issuer")
+			// the element that gets signed carries its namespace prefix in Space and its local name in Tag: goxmldsig's
+			// exclusive canonicaliser decides which xmlns declarations are "visibly used" from Space; a prefix folded
+			// into Tag serialises identically but loses its declaration under exc-c14n, and the signature no longer verifies
+			sp, okS := constString(root.Space)
+			lc, okL := constString(root.Local)
+			c.check(okS && okL && sp == ds.Space && lc == ds.Local && !strings.Contains(lc, ":"), rule, fname, "signed root: prefix in Space, local name in Tag", c.P.InstrPos(t.Instr), ds.Space+" / "+ds.Local,
+				"the root element is built as Space="+ap(root.Space)+" Tag="+ap(root.Local)+": with an exclusive canonicaliser the prefix declaration is dropped from the signed form")
 		}
 	}
 	c.count(rule+"/builder-paths", n)
